@@ -5,6 +5,7 @@ set -u
 cd "$(dirname "$0")"
 export GOFLAGS=-mod=mod GOPROXY=off GOSUMDB=off GOTOOLCHAIN=local
 VERIF=$(pwd)
+export VERIF_ROOT="$VERIF"
 mkdir -p .work/bin evidence replays
 build() {
   ( cd harness && cp /repo/go.sum go.sum 2>/dev/null; go build -tags verif -o "$VERIF/.work/bin/check" ./cmd/check ) || return 2
